@@ -3,6 +3,7 @@ package c15
 import (
 	"testing"
 
+	"github.com/canopy-network/canopy/bft"
 	"github.com/canopy-network/canopy/lib"
 
 	bs "verif/h/bftsim"
@@ -102,7 +103,9 @@ func TestC15Reg_StaleElectionCertificateHijacksRounds(t *testing.T) {
 	})
 	defer s.Close()
 	// round 0: D is elected, proposes, then stays silent: the round fails
-	s.RunRound(steer(s, 5, 0, D, all, func(e *bs.Env, to int) bool { return !(e.From == D && (e.Kind == "PC" || e.Kind == "CM")) && e.Kind != "PM" }))
+	s.RunRound(steer(s, 5, 0, D, all, func(e *bs.Env, to int) bool {
+		return !(e.From == D && (e.Kind == "PC" || e.Kind == "CM")) && e.Kind != "PM"
+	}))
 	pr := s.LeaderMsg(D, 5, 0, "PR")
 	if pr == nil {
 		t.Fatalf("setup: D was not elected in round 0: %s", s.Descriptor())
@@ -159,7 +162,9 @@ func TestC15Reg_HighQcWithoutBlockPoisonsLeader(t *testing.T) {
 	})
 	defer s.Close()
 	// round 0: D leads, collects a +2/3 PROPOSE_VOTE certificate and withholds PRECOMMIT
-	s.RunRound(steer(s, 5, 0, D, all, func(e *bs.Env, to int) bool { return !(e.From == D && (e.Kind == "PC" || e.Kind == "CM")) && e.Kind != "PM" }))
+	s.RunRound(steer(s, 5, 0, D, all, func(e *bs.Env, to int) bool {
+		return !(e.From == D && (e.Kind == "PC" || e.Kind == "CM")) && e.Kind != "PM"
+	}))
 	pc := s.LeaderMsg(D, 5, 0, "PC")
 	if pc == nil || s.CertPower(pc.Msg.Qc) < 30 {
 		t.Fatalf("setup: no withheld certificate: %s", s.Descriptor())
@@ -208,7 +213,9 @@ func TestC15Reg_ElectionCertificateInPrecommitLocks(t *testing.T) {
 	})
 	defer s.Close()
 	sentFake := false
-	pol := steer(s, 5, 0, D, all, func(e *bs.Env, to int) bool { return !(e.From == D && (e.Kind == "PC" || e.Kind == "CM")) && e.Kind != "PM" })
+	pol := steer(s, 5, 0, D, all, func(e *bs.Env, to int) bool {
+		return !(e.From == D && (e.Kind == "PC" || e.Kind == "CM")) && e.Kind != "PM"
+	})
 	pol.After = func(step int, sent []*bs.Env) {
 		for _, e := range sent {
 			if e.Kind == "PRV" && !sentFake {
@@ -240,5 +247,109 @@ func TestC15Reg_ElectionCertificateInPrecommitLocks(t *testing.T) {
 	s.RunRound(steer(s, 5, 1, L, []int{0, 1, 2}, func(e *bs.Env, to int) bool { return e.From != D && e.Kind != "PM" }))
 	if s.CommittedCorrect() == 0 {
 		t.Fatalf("VIOLATION: %d correct replicas locked on the ELECTION_VOTE certificate that Byzantine leader %d re-sent inside PRECOMMIT; in round 1 (correct leader %d, synchronous) their election votes were refused for carrying that lock and nothing committed\nschedule: %s", locked, D, L, s.Descriptor())
+	}
+}
+
+// TestC15Reg_PartialCertificateStripsCommitBlock: ANY validator may send a leader-type message whose certificate is
+// "partial" (valid aggregate, below +2/3): CheckProposerMessage stores it as possible evidence without asking who
+// leads. At COMMIT_PROCESS the replica first runs GetLocalDSE(): a stored partial PRECOMMIT_VOTE certificate of round
+// r is paired with Proposals[r][COMMIT][0].Qc - the very certificate the replica is about to commit - and AddDSE()
+// nullifies Block and Results of the certificates it is given, in place. SelfSendBlock then hands the controller a
+// certificate without block ("block is nil"), nothing is committed and no timer is armed in COMMIT_PROCESS. One
+// Byzantine validator of any power wedges every correct replica in a round that was otherwise perfect.
+func TestC15Reg_PartialCertificateStripsCommitBlock(t *testing.T) {
+	const D = 3
+	var L int
+	s := findSim(t, four, dByz, func(s *bs.Sim) bool {
+		for L = 0; L < 3; L++ {
+			if pl := s.PlanLeader(5, 0, L, []int{0, 1, 2}); pl.OK && pl.Votes-10 >= 30 {
+				return true
+			}
+		}
+		return false
+	})
+	defer s.Close()
+	pol := steer(s, 5, 0, L, []int{0, 1, 2}, func(e *bs.Env, to int) bool { return e.From != D && e.Kind != "PM" })
+	sent := false
+	pol.After = func(step int, envs []*bs.Env) {
+		for _, e := range envs {
+			if e.Kind == "PCV" && !sent {
+				sent = true
+				// a PRECOMMIT_VOTE "certificate" of this round for a made-up payload, signed by D alone, inside a COMMIT-type message of D
+				junk := s.NewProposal(D, "junk", 5)
+				cert, _ := s.CraftCert(s.VotePayload(5, 0, bs.PrecommitVote, junk.BlockHash, junk.ResultsHash, D), []int{D})
+				m := s.CraftJustified(D, 5, 0, bs.Commit, cert, 5, []int{0, 1, 2})
+				for _, to := range m.To {
+					if err := s.Deliver(m.ID, to); err != nil {
+						t.Logf("replica %d refused the partial certificate: %v", to, err)
+					}
+				}
+			}
+		}
+	}
+	s.RunRound(pol)
+	if !sent {
+		t.Fatalf("setup: round 0 did not reach PRECOMMIT_VOTE: %s", s.Descriptor())
+	}
+	for _, i := range s.Honest() {
+		if s.R[i].Committed == nil {
+			t.Fatalf("VIOLATION: correct replica %d did not commit a round in which a correct leader and all correct replicas did everything right (stuck in COMMIT_PROCESS=%v); controller gate: %v\nschedule: %s", i, s.R[i].Stuck, s.GateFails, s.Descriptor())
+		}
+	}
+}
+
+// TestC15Reg_LockedProposalWithSlashesIsReproposable (reported by the C19 agent, decided here): NewRound() clears
+// b.ByzantineEvidence "defensively". A proposal of round 0 whose results slash a double signer is justified by the
+// evidence attached to the PROPOSE message; when that round fails after correct replicas locked on it, the next
+// leader re-proposes the locked block and results (StartProposePhase) but attaches its - now empty - evidence list:
+// every replica recomputes "no double signers", ValidateByzantineEvidence fails, the round fails, and so does every
+// later round while the lock stands.
+func TestC15Reg_LockedProposalWithSlashesIsReproposable(t *testing.T) {
+	const D = 3
+	var L, L2 int
+	s := findSim(t, four, dByz, func(s *bs.Sim) bool {
+		ok := func(root, round uint64) (int, bool) {
+			for l := 0; l < 3; l++ {
+				if pl := s.PlanLeader(root, round, l, []int{0, 1, 2}); pl.OK && pl.Votes-10 >= 30 {
+					return l, true
+				}
+			}
+			return 0, false
+		}
+		var a, b bool
+		L, a = ok(5, 0)
+		L2, b = ok(5, 1)
+		return a && b
+	})
+	defer s.Close()
+	// what the replicas collected at the end of the previous height: D signed two payloads in one view
+	view := s.HeaderView(4, 0, bs.PrecommitVote)
+	pa := &lib.QuorumCertificate{Header: view, BlockHash: s.NewProposal(D, "dsA", 4).BlockHash, ResultsHash: s.NewProposal(D, "dsA", 4).ResultsHash, ProposerKey: s.R[D].Pub}
+	pb := &lib.QuorumCertificate{Header: view, BlockHash: s.NewProposal(D, "dsB", 4).BlockHash, ResultsHash: s.NewProposal(D, "dsB", 4).ResultsHash, ProposerKey: s.R[D].Pub}
+	ca, _ := s.CraftCert(pa, []int{D})
+	cb, _ := s.CraftCert(pb, []int{D})
+	for _, i := range s.Honest() {
+		if err := s.R[i].B.AddDSE(&s.R[i].B.ByzantineEvidence.DSE, &bft.DoubleSignEvidence{VoteA: bs.CloneQC(ca), VoteB: bs.CloneQC(cb)}); err != nil {
+			t.Fatalf("setup: evidence refused: %v", err)
+		}
+	}
+	// round 0: correct leader L, everybody locks, the PRECOMMIT votes never reach L: no COMMIT, the round fails
+	s.RunRound(steer(s, 5, 0, L, []int{0, 1, 2}, func(e *bs.Env, to int) bool { return e.From != D && e.Kind != "PCV" && e.Kind != "PM" }))
+	pr := s.LeaderMsg(L, 5, 0, "PR")
+	if pr == nil || pr.Msg.Qc.Results.SlashRecipients == nil || len(pr.Msg.Qc.Results.SlashRecipients.DoubleSigners) != 1 {
+		t.Fatalf("setup: the proposal of round 0 does not slash D: %s", s.Descriptor())
+	}
+	for _, i := range s.Honest() {
+		if s.R[i].B.HighQC == nil {
+			t.Fatalf("setup: replica %d not locked: %s", i, s.Descriptor())
+		}
+	}
+	if s.CommittedCorrect() != 0 {
+		t.Fatalf("setup: round 0 committed")
+	}
+	// round 1: correct leader L2 re-proposes the lock; everything correct replicas say is delivered
+	s.RunRound(steer(s, 5, 1, L2, []int{0, 1, 2}, func(e *bs.Env, to int) bool { return e.From != D && e.Kind != "PM" }))
+	if s.CommittedCorrect() == 0 {
+		t.Fatalf("VIOLATION: every correct replica is locked on the round-0 proposal that slashes validator %d; correct leader %d re-proposed it in round 1 (synchronous, all messages delivered) and nothing committed - the evidence that justifies the slash is gone after NewRound()\nschedule: %s", D, L2, s.Descriptor())
 	}
 }
